@@ -226,6 +226,25 @@ func (s *rangeState) exec(c *ctx, op string) string {
 		res += " " + s.rowsFor(mac)
 		c.emit(op, fmt.Sprintf("%d %d %s", t0, t1, res))
 		return res
+	case "rmoved": // rmoved <start> <end>: a start on a copy of the database with ANOTHER range (the operator moved or shrank it)
+		if s.h == nil {
+			return ""
+		}
+		s.nrest++
+		cp := filepath.Join(s.dir, fmt.Sprintf("moved%d.sqlite3", s.nrest))
+		if err := copyFile(s.file, cp); err != nil {
+			panic(err)
+		}
+		args := []string{cp, net.IP(unhx(f[1])).String(), net.IP(unhx(f[2])).String(), s.args[3]}
+		res := guard(func() string {
+			if _, err := rangeplugin.Plugin.Setup4(args...); err != nil {
+				return "err"
+			}
+			return "ok"
+		})
+		os.Remove(cp)
+		c.emit(op, res)
+		return res
 	case "rrestart":
 		if s.h == nil {
 			return ""
@@ -366,6 +385,24 @@ func genRange(c *ctx) {
 					every = c.rng.Intn(4) != 0
 				}
 				continue
+			}
+			if c.rng.Intn(25) == 0 {
+				// the operator moved or shrank the range between two starts: a start on the present database with another
+				// range either finds every stored lease inside it or refuses (round 9: a stale lease tolerated at start-up)
+				ns, ne := start, end
+				switch c.rng.Intn(4) {
+				case 0:
+					ne = start + (end-start)/2
+				case 1:
+					ns = start + (end-start)/2 + 1
+				case 2:
+					ns, ne = start+1, end
+				default:
+					ns, ne = start, end-1
+				}
+				if ns < ne {
+					s.exec(c, fmt.Sprintf("rmoved %s %s", hx(u32ip(ns)), hx(u32ip(ne))))
+				}
 			}
 			if c.rng.Intn(10) == 0 && lease <= 1e9*1e9 {
 				// time passes: less than, about, more than the lease time (not with the boundary leases of 2^32 s: the
